@@ -402,6 +402,62 @@ def rule_r8(ctx):
         raise AnalysisBroken("only %d size sums found in the chunk functions" % n)
 
 
+# ---------------------------------------------------------------------------
+# R9: a pointer into a message does not outlive a call that may move the message's storage
+
+BODYPTR = ("nni_msg_body", "nng_msg_body", "nni_msg_header", "nng_msg_header")
+GROWS = ("nni_msg_append", "nng_msg_append", "nni_msg_insert", "nng_msg_insert", "nni_msg_realloc", "nng_msg_realloc", "nni_msg_reserve",
+         "nng_msg_reserve", "nni_msg_pull_up", "nng_msg_append_u16", "nng_msg_append_u32", "nng_msg_append_u64", "nng_msg_insert_u16",
+         "nng_msg_insert_u32", "nng_msg_insert_u64", "nni_msg_append_u32", "nni_msg_header_insert_u32")
+
+
+def rule_r9(ctx):
+    r = ctx.rule("C17.R9", "T2", "a pointer into a message's body or header, kept in a local, is not used after a call that may move that "
+                 "message's storage (append / insert / realloc / reserve / pull_up on the same message) unless it was taken again "
+                 "-- the storage is reallocated when it has to grow, and a write through the old pointer lands in freed memory "
+                 "while the message keeps the zero bytes it was extended with", floor=12)
+    prog = ctx.prog
+    n = 0
+    for f in prog.functions:
+        if f.cfg_failed or f.file.endswith("_test.c"):
+            continue
+        ptrs = {}
+        for v in f.locals():
+            defs = G.var_defs(f, v)
+            bd = [(p_, d) for p_, d in defs if d is not None and any(m.get("k") == "call" and m.get("fn") in BODYPTR for m in walk(d))]
+            if bd:
+                ptrs[v] = (defs, bd)
+        if not ptrs:
+            continue
+        n += len(ptrs)
+        grows = [c for c in f.calls(GROWS) if c.node["args"]]
+        for v, (defs, bd) in sorted(ptrs.items()):
+            dpos = {p_ for p_, _ in defs}
+            bad = None
+            for g in grows:
+                gm = show(f.expand(g.node["args"][0]))
+                for p_, d in bd:
+                    ms = [show(f.expand(m["args"][0])) for m in walk(d) if m.get("k") == "call" and m.get("fn") in BODYPTR and m.get("args")]
+                    if gm not in ms or p_ == (g.b, g.i):
+                        continue
+                    if (g.b, g.i) not in f.reach((p_[0], p_[1] + 1), blocked=lambda b, i, e: (b, i) in dpos):
+                        continue
+                    after = f.reach((g.b, g.i + 1), blocked=lambda b, i, e: (b, i) in dpos)
+                    uses = [t for t in f.sites() if (t.b, t.i) in after and any(m.get("k") == "var" and m["n"] == v for m in walk(t.node)) and
+                            not (t.node.get("k") == "asg" and t.node["lhs"].get("k") == "var" and t.node["lhs"]["n"] == v)]
+                    if uses:
+                        bad = (g, uses[0])
+            if bad:
+                ctx.fail(r, f, "%s used after the message may have moved" % v, bad[1].line,
+                         "%s takes %s from the message's storage, calls %s on that message (line %s) and uses %s afterwards "
+                         "(line %s): when the call has to grow the storage the old pointer is dangling"
+                         % (f.name, v, bad[0].node["fn"], bad[0].line, v, bad[1].line))
+            else:
+                r.ob(f, "%s (pointer into a message) is not used across a growth of that message" % v)
+    if n < 12:
+        raise AnalysisBroken("only %d locals pointing into messages found" % n)
+
+
 def run(ctx):
     ctx.guard(rule_r1)
     ctx.guard(rule_r2)
@@ -411,3 +467,4 @@ def run(ctx):
     ctx.guard(rule_r6)
     ctx.guard(rule_r7)
     ctx.guard(rule_r8)
+    ctx.guard(rule_r9)
